@@ -95,6 +95,8 @@ by new; model bytes = real bytes (`save_incr`), model load = real load. Non-triv
         doc.reference_table.cross_reference_type = if stream { XrefType::CrossReferenceStream } else { XrefType::CrossReferenceTable };
         let mut bytes = Vec::new();
         if doc.save_to(&mut bytes).is_err() { c.count("incr.base_save_error"); continue; }
+        // third-party files end in LF, CRLF, CR or blank lines after %%EOF: all of it must be kept as the prefix
+        if r.chance(1, 2) { bytes.extend_from_slice(*r.pick(&[&b"\n"[..], b"\r\n", b"\r", b"\n\n", b"\r\n\r\n"])); c.count("incr.base_with_trailing_eol"); }
         let Ok(mut expected) = Document::load_mem(&bytes) else { c.oracle_fail("incr:base-load", "base does not load", json!({})); continue };
         let k = 1 + r.usize(kmax);
         for step in 0..k {
